@@ -69,7 +69,7 @@ fn strategy(thorough: bool) -> impl Strategy<Value = CoverCase> {
         proptest::collection::vec(enc, 2..=6),
     )
         .prop_flat_map(|(spec, detours, users, encs)| {
-            prop_oneof![5 => Just(0u8), 1 => Just(1u8), 1 => Just(2u8)].prop_map(move |extra_tracers| CoverCase { spec: spec.clone(), detours: detours.clone(), extra_tracers, users: users.clone(), encs: encs.clone() })
+            prop_oneof![10 => Just(0u8), 2 => Just(1u8), 2 => Just(2u8), 1 => Just(4u8)].prop_map(move |extra_tracers| CoverCase { spec: spec.clone(), detours: detours.clone(), extra_tracers, users: users.clone(), encs: encs.clone() })
         })
 }
 
@@ -653,7 +653,7 @@ pub fn run(ctx: &Ctx, col: &Collector) -> Meta {
         }
     }
     let rule = if focus == "C01" {
-        "random structures (1-4 dimensions, hierarchies built by out-of-order `after` insertions, arbitrary hints, non-ASCII / inner-space names) with 2-5 user policies and 2-6 encryption policies (free, or derived from a user clause: same / lower attribute / extra unmentioned dimension / dropped dimension / one step outside), policies passed as ASTs, built with the `&` / `|` operators, or through the parser with random spacing and parentheses; in two cases out of three the instance also serves a second authority with the same names and shifted attribute ids, and every key generation / encapsulation is preceded by the same call for that authority; one policy in five carries a `*` operand (`X && *`, `(D::a || *) && X`, `X || *`; built with the operators, `*` read as true); half of the structures then go through 1-5 edits (delete / add with `after` / rename / master-key round-trip / update) before any key exists, the name-level structure being edited in parallel; 2 cases in 7 use a master key with tracing level 2 or 3 (tracers appended through the serialized form); plus exhaustive tables on three fixed structures (all user DNFs with <= 2 clauses x all single-conjunction encryption policies). Oracle: name-level cover predicate. Non-trivial = authorized pair whose authorization uses a lower hierarchical attribute, an unmentioned dimension, a multi-clause user policy, a multi-target encapsulation, a hybridized target or >= 3 dimensions; distinct by (structure shape, user DNF, encryption DNF)"
+        "random structures (1-4 dimensions, hierarchies built by out-of-order `after` insertions, arbitrary hints, non-ASCII / inner-space names) with 2-5 user policies and 2-6 encryption policies (free, or derived from a user clause: same / lower attribute / extra unmentioned dimension / dropped dimension / one step outside), policies passed as ASTs, built with the `&` / `|` operators, or through the parser with random spacing and parentheses; in two cases out of three the instance also serves a second authority with the same names and shifted attribute ids, and every key generation / encapsulation is preceded by the same call for that authority; one policy in five carries a `*` operand (`X && *`, `(D::a || *) && X`, `X || *`; built with the operators, `*` read as true); half of the structures then go through 1-5 edits (delete / add with `after` / rename / master-key round-trip / update) before any key exists, the name-level structure being edited in parallel; about 1 case in 3 uses a master key with tracing level 2, 3 or 5 (tracers appended through the serialized form); plus exhaustive tables on three fixed structures (all user DNFs with <= 2 clauses x all single-conjunction encryption policies). Oracle: name-level cover predicate. Non-trivial = authorized pair whose authorization uses a lower hierarchical attribute, an unmentioned dimension, a multi-clause user policy, a multi-target encapsulation, a hybridized target or >= 3 dimensions; distinct by (structure shape, user DNF, encryption DNF)"
     } else {
         "same cases as C01 (one run yields both verdict kinds; this check reports the unauthorized half). Oracle: name-level cover predicate says no conjunction is covered => decaps must return None (Some(x) for any x is a violation). Non-trivial = unauthorized pair at distance one from authorization: exactly one attribute of a conjunction fails against some user clause (next higher level in a hierarchy, sibling in an anarchy), possibly sharing all other dimensions; distinct by (structure shape, user DNF, encryption DNF)"
     };
